@@ -541,17 +541,20 @@ def _shape_value(els, i, cx):
         return conc_scalar(e["ty"], e["vc"], cx.rng)
     if sh == "scalar":
         return one()
-    if sh == "v":
-        return [one()]
-    if sh == "n":
-        return [None]
-    if sh == "vn":
-        return [one(), None]
-    if sh == "nv":
-        return [None, one()]
-    if sh == "vv":
-        return [one(), one()]
+    if is_entry_shape(sh):
+        # spec/CimWireMC.tla ShapeSeq: "v" = a value, "n" = a NULL entry
+        return [one() if c == "v" else None for c in sh]
     raise ValueError("shape %r" % sh)
+
+
+def is_entry_shape(sh):
+    """an array shape written entry by entry ("v" value / "n" NULL), as
+    ShapeSeq of spec/CimWireMC.tla"""
+    return bool(sh) and set(sh) <= {"v", "n"}
+
+
+def is_array_shape(sh):
+    return sh == "empty" or is_entry_shape(sh)
 
 
 def build(els, i, cx):
@@ -581,8 +584,7 @@ def build(els, i, cx):
                             translatable=_b(e["trl"]))
     if k == "qdecl":
         v = _shape_value(els, i, cx)
-        is_array = e["sh"] in ("empty", "v", "n", "vn", "nv", "vv") or \
-            e.get("isarr") == "T"
+        is_array = is_array_shape(e["sh"]) or e.get("isarr") == "T"
         scopes = {s: True for s in e.get("scopes", [])}
         for s in e.get("noscopes", []):
             scopes[s] = False
@@ -594,8 +596,7 @@ def build(els, i, cx):
     quals = [build(els, j, cx) for j in _kids(els, i, ("qual",))]
     if k == "prop":
         v = _shape_value(els, i, cx)
-        is_array = e["sh"] in ("empty", "v", "n", "vn", "nv", "vv") or \
-            e.get("isarr") == "T"
+        is_array = is_array_shape(e["sh"]) or e.get("isarr") == "T"
         return CIMProperty(
             cx.name(e["nm"]), v, type=e["ty"], is_array=is_array,
             array_size=None if e["asz"] == "N" else int(e["asz"]),
@@ -1018,7 +1019,12 @@ def from_builder(recs, rng):
     return els
 
 
-SHAPES = ["null", "scalar", "empty", "v", "n", "vn", "nv", "vv"]
+# NULL multiplicity of an array value (spec/CimWire.tla NullMult): none / one /
+# many; the "many" shapes of spec/CimWireMC.tla ShapeSeq: adjacent, separated
+# by a value, before / after values, alternating with a value at the end
+MANY_NULL_SHAPES = ["nn", "nvn", "nnv", "vnn", "nvnv"]
+BASE_SHAPES = ["null", "scalar", "empty", "v", "n", "vn", "nv", "vv"]
+SHAPES = BASE_SHAPES * 2 + MANY_NULL_SHAPES      # ~1/4 of the random values
 SCOPES = ["CLASS", "ASSOCIATION", "REFERENCE", "PROPERTY", "METHOD",
           "PARAMETER", "INDICATION"]
 
@@ -1238,3 +1244,24 @@ def unit_tree(kind, typ, sh, vc, where="root"):
         e["sh"] = "scalar"
         return [E("ipath", 0, "c"), e]
     raise ValueError(kind)
+
+
+def emb_unit_tree(kind, emb, sh, where="root"):
+    """one embedded-object valued element (property / parameter value) of the
+    given shape: spec/CimWireMC.tla AddEmb (EmbShapes: scalar, arrays with
+    objects and NULL entries, and the object-less values NULL / empty array);
+    every "v" entry is an embedded instance (emb = "object": alternately a
+    class) with one property"""
+    e = E(kind, 0, "a", ty="string", sh=sh, emb=emb)
+    els = [e]
+    if where != "root" and kind == "prop":
+        e["par"] = 1
+        els = [E("inst" if where == "inst" else "class", 0, "c"), e]
+    me = len(els)
+    n = 1 if sh == "scalar" else (sh.count("v") if is_entry_shape(sh) else 0)
+    for j in range(n):
+        ok = "class" if emb == "object" and j % 2 == 1 else "inst"
+        els.append(E(ok, me, "bc"[j % 2]))
+        els.append(E("prop", len(els), "d", ty="uint8", sh="scalar",
+                     vc=["max"]))
+    return els
